@@ -2580,7 +2580,7 @@ setattr_delegate(
     PyObject *daname;
     PyObject *daname2;
     PyObject *temp;
-    /* Owned references keeping computed (non-dictionary) delegates alive: */
+    /* Owned references keeping the delegates in use alive: */
     PyObject *held = NULL;
     PyObject *held_owner = NULL;
     has_traits_object *delegate;
@@ -2601,6 +2601,7 @@ setattr_delegate(
                      dict, traitd->delegate_name))
                 != NULL)) {
             delegate = temp_delegate;
+            Py_INCREF(delegate);
         }
         else {
             // Handle the case when the delegate is not in the instance
@@ -2611,13 +2612,14 @@ setattr_delegate(
                 result = -1;
                 goto done;
             }
-            /* The result may be a temporary object: keep it alive for as
-               long as it is in use (and its predecessor while it is still
-               used as 'owner'). */
-            Py_XDECREF(held_owner);
-            held_owner = held;
-            held = (PyObject *)delegate;
         }
+        /* Keep the delegate alive for as long as it is in use (and its
+           predecessor while it is still used as 'owner'): it may be a
+           temporary object, and callbacks run by the assignment (a default
+           method, a validator, a handler) may rebind the delegate trait. */
+        Py_XDECREF(held_owner);
+        held_owner = held;
+        held = (PyObject *)delegate;
 
         // Verify that 'delegate' is of type 'CHasTraits':
         if (!PyHasTraits_Check(delegate)) {
